@@ -271,6 +271,10 @@ def provoked():
                   lambda root: [list(data), via_load_tuple(list(data), list(data), _raise_at(6))], {'ZeroDivisionError'}))
     cases.append(('the predicate of conditional raises', lambda root: [list(data), DF.conditional(lambda dp: 1 / 0, DF.Flow(DF.add_field('z', 'integer', 1)))], {'ZeroDivisionError'}))
     cases.append(('a finalizer callback raises', lambda root: [list(data), DF.finalizer(lambda: 1 / 0)], {'ZeroDivisionError'}))
+    # a callback that takes stats (optionally) and fails with a TypeError of its own: the error is the run's error, the callback is not
+    # quietly called a second time without the stats
+    cases.append(('a finalizer callback taking stats=None raises TypeError', lambda root: [list(data), DF.update_stats(dict(n='3')), DF.finalizer(_bad_stats_cb())], {'TypeError'}))
+    cases.append(('a finalizer callback taking **kw raises TypeError', lambda root: [list(data), DF.finalizer(lambda **kw: len(5))], {'TypeError'}))
     # StopIteration is the one exception class an iterator protocol may mistake for "the stream ended": a step raising it at row k
     # (a bare next() on an exhausted iterator) must fail the run like any other exception, never truncate the resource silently
     cases.append(('row function raises StopIteration at row 2', lambda root: [list(data), _stop_at(2)], {'RuntimeError', 'StopIteration'}))
@@ -359,6 +363,17 @@ def _stop_source(n, at):
                 next(iter(()))
             yield dict(a=i, b='s%d' % i)
     return gen()
+
+
+def _bad_stats_cb():
+    calls = []
+
+    def cb(stats=None):
+        calls.append(stats)
+        if stats is not None:
+            return 'rows: ' + 5          # TypeError, only when the stats are handed over
+        raise AssertionError('the callback was called again without its stats')
+    return cb
 
 
 def _raise_after_all(package):
